@@ -160,7 +160,40 @@ func TestC11(t *testing.T) {
 	raceBudget := scale(16, 800) / sn
 	extN, raceN := 0, 0
 	rapid.Check(t, func(rt *rapid.T) {
-		p := proggen.Gen(rt, proggen.GenOpts{Focus: "all", MinPkgs: 4, MaxPkgs: 8, TestFiles: false, Aliases: true, Rich: true})
+		p := proggen.Gen(rt, proggen.GenOpts{Focus: "all", MinPkgs: 4, MaxPkgs: 8, TestFiles: false, Aliases: true, Rich: true, Twins: true})
+		// @ignore comments for one shared token in many files: the suppression index of a
+		// package then holds markers of several files, whose position ranges depend on the
+		// order in which the loader happened to parse the files
+		if nodes := p.Nodes(); len(nodes) > 0 && rapid.Bool().Draw(rt, "withIgnoreComments") {
+			// aim at statements that are reported: the comments then decide verdicts
+			pre := loadOrBug(rt, id, p, cfg)
+			bySite, _ := proggen.SiteDiags(p, pre.Diags)
+			var hot []proggen.NodeRef
+			for _, nd := range nodes {
+				for _, sid := range nd.Sites {
+					if len(bySite[sid]) > 0 {
+						hot = append(hot, nd)
+						break
+					}
+				}
+			}
+			tok := rapid.SampledFrom([]string{"ALL", "IMM", "IMM01", "CTOR", "CTOR01, IMM01", "TONL, PKGO", "IMM01, IMM03", "ALL", "IMM, CTOR, TONL, PKGO"}).Draw(rt, "ignoreToken")
+			for i, n := 0, rapid.IntRange(3, 12).Draw(rt, "nIgnore"); i < n; i++ {
+				pool := nodes
+				if len(hot) > 0 && rapid.IntRange(0, 9).Draw(rt, "aimed") < 8 {
+					pool = hot
+				}
+				nd := pool[rapid.IntRange(0, len(pool)-1).Draw(rt, "ignoreNode")]
+				cm := "// @ignore " + tok
+				if rapid.Bool().Draw(rt, "ignoreTrailing") {
+					nd.Node.Trailing = cm
+				} else {
+					nd.Node.Before = append(nd.Node.Before, cm)
+				}
+			}
+			p.Render()
+			ev.Class(id, "program with @ignore comments for one token in several files")
+		}
 		seq := loadOrBug(rt, id, p, cfg)
 		src := p.Sources()
 		ev.Eval(id)
